@@ -42,7 +42,7 @@ func C17(c *core.Ctx) {
 		}
 		c.Floor("R17.1", "module dispatch sites", len(disp), 1)
 		tooShort := &core.Atom{Name: "len(name)<len(prefix)+2", Match: func(cond ssa.Value) (int, int) {
-			op, x, y, ok := core.Cmp(cond)
+			op, x, y, ok := core.CmpOrient(cond, core.IsLen)
 			if !ok {
 				return 0, 0
 			}
@@ -168,7 +168,7 @@ func C17(c *core.Ctx) {
 		c.Funcs[fname] = true
 		interest := ssa.Value(fn.Params[1])
 		tooShort := &core.Atom{Name: "len(name)<prefix+3", Match: func(cond ssa.Value) (int, int) {
-			op, x, y, ok := core.Cmp(cond)
+			op, x, y, ok := core.CmpOrient(cond, core.IsLen)
 			if !ok {
 				return 0, 0
 			}
@@ -630,7 +630,7 @@ func C17(c *core.Ctx) {
 	for _, fn := range p.FuncsIn(pkg) {
 		for _, ci := range core.FindCallsDeep(fn, core.CalleeID{Pkg: "fw/face", Recv: "*", Name: "SetMTU"}) {
 			small := &core.Atom{Name: "*params.Mtu<min", Match: func(cond ssa.Value) (int, int) {
-				op, x, y, ok := core.Cmp(cond)
+				op, x, y, ok := core.CmpOrient(cond, func(v ssa.Value) bool { return isDerefOfField(v, "Mtu") })
 				if !ok {
 					return 0, 0
 				}
@@ -1213,7 +1213,7 @@ func c17Round4(c *core.Ctx) {
 			return len(path) >= 2 && path[len(path)-1] == "Name" && path[len(path)-2] == "Strategy"
 		}
 		tooLong := &core.Atom{Name: "len(Strategy.Name) > len(prefix)+2", Match: func(cond ssa.Value) (int, int) {
-			op, x, y, ok := core.Cmp(cond)
+			op, x, y, ok := core.CmpOrient(cond, func(v ssa.Value) bool { l, isL := core.LenOf(core.StripConv(v)); return isL && isStratName(l) })
 			if !ok {
 				return 0, 0
 			}
@@ -1965,7 +1965,7 @@ func c17Round4b(c *core.Ctx) {
 			nTcp++
 			c.Funcs[core.FuncName(fn)] = true
 			full := &core.Atom{Name: "*params.Mtu < maximum packet size", Match: func(cond ssa.Value) (int, int) {
-				op, x, y, ok := core.Cmp(cond)
+				op, x, y, ok := core.CmpOrient(cond, func(v ssa.Value) bool { return isDerefOfField(v, "Mtu") })
 				if !ok || !isDerefOfField(x, "Mtu") {
 					return 0, 0
 				}
@@ -2008,7 +2008,7 @@ func c17Round4b(c *core.Ctx) {
 			if !ok {
 				return
 			}
-			_, x, y, okC := core.Cmp(iff.Cond)
+			_, x, y, okC := core.CmpOrient(iff.Cond, func(v ssa.Value) bool { return isDerefOfField(v, "Mtu") })
 			if !okC || !isDerefOfField(x, "Mtu") {
 				return
 			}
